@@ -1,5 +1,5 @@
 (** C13 — progress: the invariant of reachable states and the absence of deadlock for
-    flat programs (code as written) and for all programs under the repaired admission rule *)
+    flat programs (either rule) and for all programs under the admission rule of the code *)
 From Coq Require Import List NArith Bool Arith Lia.
 From UV Require Import Model.Pool Proofs.PoolShape.
 Import ListNotations.
